@@ -82,9 +82,9 @@ const std::vector<double>& FullHmmTransitionMatrix::getEquilibriumFrequencies() 
 {
   size_t salph = getNumberOfStates();
 
-  if (!upToDate_)
+  if (!eqFreqUpToDate_)
   {
-    pij_ = getPij();
+    getPij();
 
     MatrixTools::pow(pij_, 256, tmpmat_);
 
@@ -93,7 +93,7 @@ const std::vector<double>& FullHmmTransitionMatrix::getEquilibriumFrequencies() 
       eqFreq_[i] = tmpmat_(0, i);
     }
 
-    upToDate_ = true;
+    eqFreqUpToDate_ = true;
   }
 
   return eqFreq_;
@@ -109,4 +109,5 @@ void FullHmmTransitionMatrix::fireParameterChanged(const ParameterList& paramete
   }
 
   upToDate_ = false;
+  eqFreqUpToDate_ = false;
 }
